@@ -265,6 +265,18 @@ def main():
         mrep, mfd = mo.split()
         if vlib.unhx(mrep) != rest or (None if mfd == "none" else vlib.unhx(mfd)) != fd3:
             mism.append(dict(obj, model_output=vlib.unhx(mrep).decode("latin1")[:400], model_fd3=mfd))
+    # directed: credentials that end in a blank or a CR reach the checker byte for byte (only the CR of the line end is removed)
+    for u_, p_, eol in [(b"alice ", b"open sesame ", b"\r\n"), (b"alice", b"secret\r", b"\r\n"), (b"al ice  ", b" x ", b"\n"), (b"bob\r", b"pw\r\r", b"\r\n"), (b"carol", b"tab\t ", b"\n")]:
+        data = b"USER " + u_ + eol + b"PASS " + p_ + eol
+        if os.path.exists(fd3out): os.remove(fd3out)
+        pr = subprocess.run([popup, "pop.example", stub], input=data, stdout=subprocess.PIPE, stderr=subprocess.PIPE, env=dict(os.environ, FD3OUT=fd3out, STUBRC="0"), timeout=30)
+        m = re.match(rb"^\+OK <([^>]*)>\r\n", pr.stdout)
+        fd3 = open(fd3out, "rb").read() if os.path.exists(fd3out) else None
+        ck.evaluated(); ck.count("popup_verbatim_credentials")
+        want = None if not m else u_ + b"\0" + p_.lstrip(b" ") + b"\0<" + m.group(1) + b">\0"
+        if want is None or fd3 != want:
+            fails.append(("popup:credentials-not-verbatim", dict(kind="history", program="qmail-popup", session=data.decode("latin1"), fd3=None if fd3 is None else vlib.hx(fd3),
+                                                                 expected_fd3=None if want is None else vlib.hx(want)), len(data)))
     # refuses to run as root
     p = subprocess.run([exe, "Maildir"], input=b"QUIT\r\n", stdout=subprocess.PIPE, stderr=subprocess.PIPE, cwd=base)
     ck.evaluated(); ck.count("root_refused")
